@@ -1,0 +1,112 @@
+//go:build verif
+
+/*
+/*
+ Licensed to the Apache Software Foundation (ASF) under one
+ or more contributor license agreements.  See the NOTICE file
+ distributed with this work for additional information
+ regarding copyright ownership.  The ASF licenses this file
+ to you under the Apache License, Version 2.0 (the
+ "License"); you may not use this file except in compliance
+ with the License.  You may obtain a copy of the License at
+
+     http://www.apache.org/licenses/LICENSE-2.0
+
+ Unless required by applicable law or agreed to in writing, software
+ distributed under the License is distributed on an "AS IS" BASIS,
+ WITHOUT WARRANTIES OR CONDITIONS OF ANY KIND, either express or implied.
+ See the License for the specific language governing permissions and
+*/
+
+package scheduler
+
+import (
+	"github.com/apache/yunikorn-core/pkg/handler"
+	"github.com/apache/yunikorn-core/pkg/rmproxy/rmevent"
+	"github.com/apache/yunikorn-core/pkg/scheduler/objects"
+	"github.com/apache/yunikorn-scheduler-interface/lib/go/si"
+)
+
+// Verification hooks (build tag "verif" only): drive a ClusterContext synchronously from one
+// goroutine and observe unexported bookkeeping. Nothing here changes behaviour.
+
+type VerifCore struct {
+	CC *ClusterContext
+}
+
+// VerifNewCore creates a cluster context from a configuration, installs the event handler and
+// stops the periodic background cleaners (the harness invokes the cleaning functions explicitly).
+func VerifNewCore(rmID, policyGroup string, config []byte, h handler.EventHandler) (*VerifCore, error) {
+	cc, err := NewClusterContext(rmID, policyGroup, config)
+	if err != nil {
+		return nil, err
+	}
+	cc.setEventHandler(h)
+	for _, p := range cc.GetPartitionMapClone() {
+		close(p.partitionManager.stopCleanRoot)
+		close(p.partitionManager.stopCleanExpiredApps)
+	}
+	return &VerifCore{CC: cc}, nil
+}
+
+func (v *VerifCore) Nodes(req *si.NodeRequest) {
+	v.CC.handleRMUpdateNodeEvent(&rmevent.RMUpdateNodeEvent{Request: req})
+}
+
+func (v *VerifCore) Apps(req *si.ApplicationRequest) {
+	v.CC.handleRMUpdateApplicationEvent(&rmevent.RMUpdateApplicationEvent{Request: req})
+}
+
+func (v *VerifCore) Allocs(req *si.AllocationRequest) {
+	v.CC.handleRMUpdateAllocationEvent(&rmevent.RMUpdateAllocationEvent{Request: req})
+}
+
+func (v *VerifCore) Schedule() bool { return v.CC.schedule() }
+
+func (v *VerifCore) Reload(rmID string, config []byte) error {
+	return v.CC.UpdateRMSchedulerConfig(rmID, config)
+}
+
+func (v *VerifCore) Partition(name string) *PartitionContext { return v.CC.GetPartition(name) }
+
+func (pc *PartitionContext) VerifCleanQueues()         { pc.partitionManager.cleanQueues(pc.root) }
+func (pc *PartitionContext) VerifCleanExpiredApps()    { pc.cleanupExpiredApps() }
+func (pc *PartitionContext) VerifRoot() *objects.Queue { return pc.root }
+
+// VerifCounters returns the partition counters: allocations, placeholder allocations, reservations.
+func (pc *PartitionContext) VerifCounters() (int, int, int) {
+	pc.RLock()
+	defer pc.RUnlock()
+	return pc.allocations, pc.placeholderAllocations, pc.reservations
+}
+
+// VerifForeign returns the foreign allocations tracked by the partition.
+func (pc *PartitionContext) VerifForeign() []*objects.Allocation {
+	pc.RLock()
+	defer pc.RUnlock()
+	out := make([]*objects.Allocation, 0, len(pc.foreignAllocs))
+	for _, a := range pc.foreignAllocs {
+		out = append(out, a)
+	}
+	return out
+}
+
+// VerifTerminated returns the applications in the completed and rejected lists.
+func (pc *PartitionContext) VerifTerminated() ([]*objects.Application, []*objects.Application) {
+	pc.RLock()
+	defer pc.RUnlock()
+	c := make([]*objects.Application, 0, len(pc.completedApplications))
+	for _, a := range pc.completedApplications {
+		c = append(c, a)
+	}
+	r := make([]*objects.Application, 0, len(pc.rejectedApplications))
+	for _, a := range pc.rejectedApplications {
+		r = append(r, a)
+	}
+	return c, r
+}
+
+// VerifTryQuotaPreemption runs the quota preemption trigger of the scheduling loop once.
+func (v *VerifCore) VerifPartitions() map[string]*PartitionContext {
+	return v.CC.GetPartitionMapClone()
+}
